@@ -110,6 +110,7 @@ def rules(ctx):
         Rule("R08.a", "binary operator -> Cranelift instruction table (shared with C08)", 27, _reuse("c08", "r08a")),
         Rule("R08.b", "cast_num decision tree (shared with C08)", 144, _reuse("c08", "r08b")),
         Rule("R08.c", "finalize_int width/signedness table (shared with C08)", 20, _reuse("c08", "r08c")),
+        Rule("R08.e", "numeric binary expressions take their instruction from the selection table (shared with C08)", 5, _reuse("c08", "r08e")),
         Rule("R09.f", "integer literals are materialised at their written value (shared with C09)", 20, _reuse("c09", "r09f")),
         Rule("R07.d", "operator/type combinations the checker accepts have a code-generator arm (shared with C07)", 80, _reuse("c07", "r07d")),
         Rule("R07.h", "every cast the checker accepts is one the code generator can build (shared with C07)", 100, _reuse("c07", "r07h")),
